@@ -263,6 +263,9 @@ def r4(ctx, F):
 
 
 def r5(ctx, F, hub):
+    if getattr(hub, 'optional_staging', None):
+        ctx.undecided('C12.R5', 'handle_put streams the content through a helper object with an optional staging file (%s): that every reply path has consumed the content is not decided' % hub.optional_staging)
+        return
     b = F.body('serve::handle_put')
     fl = flow_of(b)
     cfg = fl.cfg
